@@ -231,12 +231,12 @@ end
 /-- `Marshal` (HTML escaping on) -/
 def marshalAny (v : Value) : Cst := marshalAnyE true v
 
-/-- `createObjectMergePatch` on two parsed texts (a `null` root reads as an empty map) -/
+/-- `createObjectMergePatch` on two parsed texts (a `null` root decodes to a nil map and is
+rejected like every other non-object) -/
 def createObject (a b : Cst) : Outcome Value :=
   let asMap (c : Cst) : Option Value.Members :=
     match anyOf c.valueOf with
     | .obj ms => some ms
-    | .null => some []
     | _ => none
   match asMap a, asMap b with
   | some am, some bm => .ok (.obj (getDiff am bm))
